@@ -1,6 +1,7 @@
 package rg
 
 import (
+	"os"
 	"fmt"
 
 	"go/token"
@@ -1007,8 +1008,24 @@ func (c *C) helperBoolStates(fn *ssa.Function, want bool, allEdges bool, vocab [
 			if strings.HasPrefix(f, "C|") || strings.HasPrefix(f, "W|") || strings.HasPrefix(f, "OK|") || strings.HasPrefix(f, "ERR|") || f == "SEND" {
 				exp[f] = true
 			}
+			// comparisons the obligation names literally (field and callee names, not the helper's variables)
+			if strings.HasPrefix(f, "T|cmp:") || strings.HasPrefix(f, "F|cmp:") {
+				for _, v := range vocab {
+					if v == f && !strings.ContainsAny(f, "?*") && !strings.Contains(f, ":p") {
+						exp[f] = true
+					}
+				}
+			}
 		}
 		return exp
+	}
+	literal := func(f string) bool {
+		for _, v := range vocab {
+			if v == f && !strings.ContainsAny(f, "?*") && !strings.Contains(f, ":p") {
+				return true
+			}
+		}
+		return false
 	}
 	seen := map[string]bool{}
 	var out []Set
@@ -1058,10 +1075,46 @@ func (c *C) helperBoolStates(fn *ssa.Function, want bool, allEdges bool, vocab [
 					}
 				}
 			}
+			// return a < b: the comparison holds (or fails) whenever the wanted value comes back this way; the states of
+			// the other ways into this return are kept too, which can only ask for more
+			named := func(v ssa.Value) string {
+				if n, flip := condName(v); n != "" {
+					extra := "F|" + n
+					if want != flip {
+						extra = "T|" + n
+					}
+					if literal(extra) {
+						return extra
+					}
+				}
+				return ""
+			}
+			extra := named(v)
+			phi, _ := v.(*ssa.Phi)
 			for _, st := range states {
-				add(export(st))
+				e := export(st)
+				if extra != "" {
+					e[extra] = true
+				}
+				if phi != nil {
+					// a && b, a || b: the path knows which operand it hands back
+					if (want && st["PHIV|"+phi.Name()+"|F"]) || (!want && st["PHIV|"+phi.Name()+"|T"]) {
+						continue
+					}
+					for _, ev := range phi.Edges {
+						if st["PHIV|"+phi.Name()+"|E|"+ev.Name()] {
+							if x := named(ev); x != "" {
+								e[x] = true
+							}
+						}
+					}
+				}
+				add(e)
 			}
 		}
+	}
+	if os.Getenv("RG_DBG_HB") != "" {
+		fmt.Fprintf(os.Stderr, "HB %s want=%v vocab=%v -> %v\n", fn.Name(), want, vocab, out)
 	}
 	return out
 }
